@@ -453,6 +453,31 @@ def step : (d : Nat) → Rd → Op → Out
     | .ioBytes r true rErr buf sPos, .seekB o w => ioBytesSeek sub r rErr buf sPos o w
     | _, _ => unsupported "no such method"
 
+/-! ### aliasing: an operation on a sub-reader that is still referenced from outside the composition
+
+  Go readers are objects: the reader handed to NewSectionReader / NewMultiReader / NewLimitReader / NewIOReader …
+  is the SAME object the caller still holds, so reading it directly moves the cursor the composition sees (if it
+  uses the part's ReadBits: LimitReader, IOReader) or leaves the composition unaffected (if it only uses
+  ReadBitsAt: SectionReader, MultiReader).  In the model the state of a part lives inside the state of the
+  composition; `stepAt d path s op` performs `op` on the part at `path` (child indices from the top). -/
+
+def stepAt (d : Nat) : List Nat → Rd → Op → Out
+  | [], s, op => step d s op
+  | i :: path, s, op =>
+    match s, i with
+    | .sect r base off limit, 0 => do let (r, res) ← stepAt d path r op; ok (.sect r base off limit, res)
+    | .limit r n, 0 => do let (r, res) ← stepAt d path r op; ok (.limit r n, res)
+    | .ioBits b bitPos buf, 0 => do let (b, res) ← stepAt d path b op; ok (.ioBits b bitPos buf, res)
+    | .ahead b m off c co, 0 => do let (b, res) ← stepAt d path b op; ok (.ahead b m off c co, res)
+    | .progress b ps, 0 => do let (b, res) ← stepAt d path b op; ok (.progress b ps, res)
+    | .ctx b, 0 => do let (b, res) ← stepAt d path b op; ok (.ctx b, res)
+    | .ioBytes r sk e buf sp, 0 => do let (r, res) ← stepAt d path r op; ok (.ioBytes r sk e buf sp, res)
+    | .multi rs ends pos, i =>
+      match rs[i]? with
+      | some r => do let (r, res) ← stepAt d path r op; ok (.multi (rs.set i r) ends pos, res)
+      | none => unsupported "no such part"
+    | _, _ => unsupported "no such part"
+
 /-! ### constructors -/
 
 /-- bitio.NewSectionReader(r, bitOff, nBits) -/
